@@ -2,6 +2,7 @@ SPECIFICATION GSpec
 CONSTANTS NB = 2
           NID = 1
           Wide = FALSE
+          Inners = {"plain"}
           MaxBatch = 2
           D = 2
           E = 2
